@@ -700,6 +700,12 @@ func Templates(fs string, core, removeAll bool) []Tmpl {
 		one(fsx.Call{Op: "Rename", A: "/f/g", B: "/tmp/g"}),
 		one(fsx.Call{Op: "Mkdir", A: "/tmp/y", Perm: 0o755}),
 		one(fsx.Call{Op: "OpenFile", A: "/tmp/y", Flag: ex, Perm: 0o644}),
+		// one file with names in two directories, linked once more in each of them by two threads:
+		// the two calls share no directory lock, only the lock of the file orders their counter updates
+		Tmpl{{Op: "Link", A: "/d/x", B: "/f/l"}, {Op: "Link", A: "/f/l", B: "/f/m"}},
+		one(fsx.Call{Op: "Link", A: "/d/h", B: "/d/y"}),
+		// exclusive creation without an access mode (the lock-file idiom): still a creation
+		one(fsx.Call{Op: "OpenFile", A: "/d/y", Flag: os.O_CREATE | os.O_EXCL, Perm: 0o644}),
 		// the same missing directory made by two threads, each putting its own file into it:
 		// the second creator must find the directory of the first, not make another one
 		Tmpl{{Op: "MkdirAll", A: "/d/y/y", Perm: 0o755}, {Op: "OpenFile", A: "/d/y/y/f", Flag: ex, Perm: 0o644}},
